@@ -51,6 +51,7 @@ def stDescribe (s : Storage.St) (p : Proc) : String :=
   | .fIdxClear => "index.clear"
   | .fCntZero => "cnt.write 0"
   | .fWfZero => "wf.write 0"
+  | .xClose => "close"
 
 def stDigest (s : Storage.St) : String :=
   let idx := joinWith "," (s.index.map (fun e => match e with | some (a, b) => s!"{a}:{b}" | none => "-"))
@@ -70,6 +71,7 @@ def parseOps : List String → Option (List Op)
   | "contig" :: r => (parseOps r).map (Op.contig :: ·)
   | "iter" :: r => (parseOps r).map (Op.iter :: ·)
   | "flush" :: r => (parseOps r).map (Op.flush :: ·)
+  | "close" :: r => (parseOps r).map (Op.close :: ·)
   | _ => none
 
 def splitOnBar (ws : List String) : List (List String) :=
